@@ -14,6 +14,7 @@ globals of mpservice.socket by the client and server coroutines, so shadows ther
 `client._pending_requests` is wrapped.  Nothing in /repo is touched.
 """
 import asyncio
+import concurrent.futures
 import hashlib
 import json
 import os
@@ -173,7 +174,14 @@ def run_sock(case):
             def requester(ks):
                 for k in ks:
                     try:
-                        y = client.request('/', payload(k), response_timeout=HANG)
+                        ab = reqs[k].get('abandon')
+                        try:
+                            y = client.request('/', payload(k), response_timeout=(ab / 1000 if ab else HANG))
+                        except concurrent.futures.TimeoutError:
+                            if not ab:
+                                raise
+                            rep['results'][k] = ['abandoned']
+                            continue
                         rep['results'][k] = summarize(y)
                     except BaseException as e:  # noqa
                         rep['results'][k] = summarize(e) if isinstance(e, HandlerError) else \
@@ -202,6 +210,10 @@ def run_sock(case):
                 t.join(max(0.1, deadline - time.time()))
                 if t.is_alive():
                     rep['errors'].append(f'requester {t.name} still blocked after the hang bound')
+            if any(r.get('abandon') for r in reqs):
+                # the late responses of abandoned requests are still on their way
+                while client._active_requests and time.time() < deadline and not any(t.done() for t in client._tasks):
+                    time.sleep(0.01)
             log('end-trace')
             rep['timing']['done'] = round(time.time() - t_start, 3)
             rep['left_active'] = len(client._active_requests)
